@@ -47,9 +47,20 @@ CLAIM = {
             'numerically per case, not proved here: doWF is C12, whitening is C20; C09 needs only p >= 0, some p > 0 '
             'and invertible whitening matrices), binary64 rounding (correspondence within 1e-9 of the absolute-value '
             'product bound), the harness.  The null-space and noise-eigenspace contracts are themselves derived in Lean '
-            'from the SVD factorisation contract (A = U S V^H, unitary factors).  Oracle-conditional: "enough streams '
-            'are sacrificed" (n <= N - rank E) enters as "the n smallest singular values of Re_k equal the noise '
-            'variance" (checked per case; the rank-counting argument behind it is not formalised); the Moore-Penrose '
+            'from the SVD factorisation contract (A = U S V^H, unitary factors).  "Enough streams are sacrificed" '
+            '(n <= N - rank E_k) is now PROVED to imply the noise-eigenspace contract: for Re_k = pe.E E^H + s2.1 the '
+            's2-eigenspace is ker E^H (pe != 0), of dimension N - rank E (ext_noise_eigenspace, rank-nullity); for '
+            'n <= N - rank E it contains n orthonormal vectors, and any filter M.P^H built on such P has W Re W^H = '
+            's2 W W^H, W E = 0 (enough_streams_sacrificed; the bound is exact: enough_streams_iff); and for ANY factorisation Re_k = U diag(S) V^H with unitary '
+            'factors and non-negative singular values in decreasing order (pe >= 0, s2 > 0) the n smallest singular '
+            'values equal s2 and the n least right singular vectors - the matrix _calc_stream_reduction_matrix '
+            'computes - satisfy Re P = s2 P, P^H P = 1, E^H P = 0 (least_singular_vectors_in_noise_space; end to end '
+            'with the receive filter: enough_streams_ext_int_removed; such a factorisation exists for every E: '
+            'svd_contract_satisfiable; the decreasing order cannot be dropped: sorted_order_needed).  What remains a per-case contract there: that '
+            'np.linalg.svd returns such a factorisation (factorisation, unitarity and "the n smallest singular values '
+            'equal the noise variance" are checked numerically on every case; S >= 0 in decreasing order is numpy\'s '
+            'documented behaviour, trusted), and n <= N - rank E itself is a precondition on the caller\'s num_streams (the '
+            'code does not test it; rank is the exact rank over C, not matrix_rank with its tolerance).  The Moore-Penrose '
             'conditions of pinv and matrix_rank = (K-1)N on full-rank channels are checked, not proved.  The compiled '
             'whole-method model op for block_diagonalize is run for K.N <= 9 (12 in a sample of thorough cases) because '
             'the closure-based model costs O(T^6); all its steps are compared for every size.  Robustness classes: '
